@@ -13,8 +13,11 @@ import vlib
 from vlib import log
 
 MODULE, CFG = "ExecQueueTrace.tla", "ExecQueueTrace.cfg"
-MC = {"quick": [("MC_C16_quick.cfg", 600), ("MC_C16_live_quick.cfg", 600)],
-      "thorough": [("MC_C16_thorough.cfg", 3000), ("MC_C16_live_thorough.cfg", 3000)]}
+MC = {"quick": [("MC_C16_quick.cfg", 900), ("MC_C16_live_quick.cfg", 900)],
+      "thorough": [("MC_C16_thorough.cfg", 2100), ("MC_C16_live_thorough.cfg", 2100)]}
+# configurations in which the specification is deliberately broken: TLC must find the stated violation (else the
+# properties have lost their teeth and the run is an infrastructure failure, not a verdict)
+VACUITY = [("MC_C16_vac_notify.cfg", "Deadlock"), ("MC_C16_vac_drain.cfg", "ExactlyOnce"), ("MC_C16_vac_bgwait.cfg", "CompletionOnce")]
 N_SCEN = {"quick": 1500, "thorough": 16000}
 BATCH = 25
 
@@ -323,21 +326,29 @@ def fam_bound(rng, sid):
     return s
 
 def fam_serial(rng, sid):
-    """the serial queue: FIFO, one job at a time, same subprocess layer (no jobs added by jobs: see notes)"""
+    """the serial queue: FIFO, one job at a time, same subprocess layer; jobs that add jobs, also while the destructor
+    is waiting (the shutdown marker must not cut them off)"""
     s = Scn(sid, "serial", lanes=1, alg="fifo", serial=True)
-    n = rng.randint(1, 5); k = 0
-    for i in range(n):
+    n = rng.randint(1, 5); k = 0; ids = ["j%d" % i for i in range(n)]
+    parent = {j: (None if i == 0 or rng.random() < 0.6 else rng.choice(ids[:i])) for i, j in enumerate(ids)}
+    gated = rng.random() < 0.35
+    for i, j in enumerate(ids):
         steps = [("sleep", rng.choice([0, 100, 1000]))]
+        if gated and i == 0: steps.append(("wait", "g"))
         if rng.random() < 0.5:
             h = "p%d" % k; k += 1
             rand_child(rng, s, h, kind=rng.choice(["out", "exit", "sig", "missing", "big", "closeout", "wrap", "queue"]))
             s.procs[h]["release"] = False
             steps.append(("spawn", h))
+        for c in ids:
+            if parent[c] == j: steps.append(("add", c))
         if rng.random() < 0.1: steps.append(("cancel", ""))
-        s.job("j%d" % i, prio=rng.choice(["N", "H"]), steps=steps); s.main.append(("add", "j%d" % i))
+        s.job(j, prio=rng.choice(["N", "H"]), steps=steps)
+        if parent[j] is None: s.main.append(("add", j))
     if rng.random() < 0.3: s.main.insert(rng.randrange(len(s.main) + 1), ("cancel", ""))
     if rng.random() < 0.4: s.main.append(("sleep", rng.choice([500, 5000])))
     s.main.append(("destroy", ""))
+    if gated: s.main += [("sleep", rng.choice([500, 3000])), ("open", "g")]
     return s
 
 FAMILIES = [(fam_mix, 30), (fam_drain, 16), (fam_procs, 16), (fam_release, 10), (fam_cancel, 14), (fam_bound, 6), (fam_serial, 8), (fam_progress, 10)]
@@ -456,9 +467,9 @@ def run_batch(args):
     if bi == 0 and complete: out["sample"] = complete[0][:40]
     return out
 
-def model_check(cfg, timeout):
+def model_check(cfg, timeout, workers):
     t0 = time.time()
-    rc, out = vlib.tlc("MC_C16.tla", cfg, workers=vlib.NCPU, heap="-Xmx12g", timeout=timeout, extra=("-coverage", "1"))
+    rc, out = vlib.tlc("MC_C16.tla", cfg, workers=workers, heap="-Xmx12g", timeout=timeout, extra=("-coverage", "1"))
     p = vlib.parse_tlc(out)
     if "Deadlock reached" in out: p["violated"] = p["violated"] or "Deadlock"
     if p["error"] and not p["violated"]: raise vlib.Infra("model checking %s failed: %s\n%s" % (cfg, p["error"], out[-3000:]))
@@ -499,17 +510,14 @@ def run(pid, tier, seed, only=None, n=None, variants=None, skip_mc=False):
     b = build("hooks")
     wd = vlib.scratch("%s_%s" % (pid, tier))
     violations = []; mcs = []
-    # (a) model checking
+    # (a) model checking - started now, collected after the traces (the TLC runs and the drivers share the machine)
+    from concurrent.futures import ThreadPoolExecutor
+    pool = ThreadPoolExecutor(max_workers=8); mc_futs = []; vac_futs = []
     if not skip_mc:
-        for cfg, to in MC[tier]:
-            mc = model_check(cfg, to); mcs.append((cfg, mc))
-            log("[%s] model checking %s: %s distinct states, %s generated, depth %s, %.0fs%s" % (pid, cfg, mc["distinct"], mc["states"], mc["depth"], mc["wall"], " TIMEOUT" if mc["rc"] == 124 else ""))
-            if mc["violated"]:
-                d = os.path.join(vlib.REPLAY, pid); os.makedirs(d, exist_ok=True)
-                p = os.path.join(d, "tlc-counterexample-%s.txt" % cfg); open(p, "w").write(mc["out"][-200000:])
-                violations.append(dict(replay=p, what="TLC: %s violated in ExecQueue.tla (%s)" % (mc["violated"], cfg), fingerprint=fp("model", mc["violated"])))
-            never = [a for a, (taken, _) in mc["actions"].items() if taken == 0 and not a.startswith(("MCInit", "Terminated"))]
-            if never: log("[%s]   actions never taken in %s: %s" % (pid, cfg, never))
+        for i, (cfg, to) in enumerate(MC[tier]):
+            mc_futs.append((cfg, pool.submit(model_check, cfg, to, max(4, vlib.NCPU // 2) if i == 0 else 4)))
+        for cfg, expect in VACUITY:
+            vac_futs.append((cfg, expect, pool.submit(vlib.tlc, "MC_C16.tla", cfg, workers=2, heap="-Xmx4g", timeout=900)))
     # (b) implementation traces
     scns = gen_scenarios(seed, n or N_SCEN[tier], only)
     vars_ = variants or (["hooks"] if tier == "quick" else ["hooks", "asan", "tsan"])
@@ -522,6 +530,23 @@ def run(pid, tier, seed, only=None, n=None, variants=None, skip_mc=False):
         for i in range(0, len(part), BATCH):
             jobs.append((bb + "/harness/queue_driver", wd, bi, part[i:i + BATCH], env)); bi += 1
     results = vlib.parallel(run_batch, jobs)
+    vac = []
+    for cfg, mcf in mc_futs:
+        mc = mcf.result(); mcs.append((cfg, mc))
+        log("[%s] model checking %s: %s distinct states, %s generated, depth %s, %.0fs%s" % (pid, cfg, mc["distinct"], mc["states"], mc["depth"], mc["wall"], " TIMEOUT (exploration incomplete)" if mc["rc"] == 124 else ""))
+        if mc["violated"]:
+            d = os.path.join(vlib.REPLAY, pid); os.makedirs(d, exist_ok=True)
+            p = os.path.join(d, "tlc-counterexample-%s.txt" % cfg); open(p, "w").write(mc["out"][-200000:])
+            violations.append(dict(replay=p, what="TLC: %s violated in ExecQueue.tla (%s)" % (mc["violated"], cfg), fingerprint=fp("model", mc["violated"])))
+        never = [a for a, (taken, _) in mc["actions"].items() if taken == 0 and not a.startswith(("MCInit", "Terminated"))]
+        if never: log("[%s]   actions never taken in %s: %s" % (pid, cfg, never))
+    for cfg, expect, vf in vac_futs:
+        rc, out = vf.result(); p = vlib.parse_tlc(out)
+        got = "Deadlock" if "Deadlock reached" in out else p["violated"]
+        if got != expect: raise vlib.Infra("vacuity configuration %s: expected %s, TLC reported %s\n%s" % (cfg, expect, got, out[-2000:]))
+        vac.append(dict(config=cfg, expected=expect, found=got))
+    if vac: log("[%s] vacuity configurations: %s" % (pid, ", ".join("%s -> %s" % (v["config"], v["found"]) for v in vac)))
+    pool.shutdown()
     acc = sum(r["acc"] for r in results); states = sum(r["states"] for r in results); events = sum(r["events"] for r in results)
     execs = sum(r["execs"] for r in results); nt = set().union(*[r["nt"] for r in results]) if results else set()
     fams = {}
@@ -548,7 +573,7 @@ def run(pid, tier, seed, only=None, n=None, variants=None, skip_mc=False):
     safety = mcs[0][1] if mcs else dict(distinct=0, states=0, depth=0, wall=0, actions={})
     cov = dict(states=safety["distinct"] or 0, transitions=safety["states"] or 0,
                tlc=[dict(config=c, distinct=m["distinct"], generated=m["states"], depth=m["depth"], wall_s=round(m["wall"], 1), complete=(m["rc"] != 124)) for c, m in mcs],
-               actions={a: v[0] for a, v in safety["actions"].items()},
+               actions={a: v[0] for a, v in safety["actions"].items()}, vacuity=vac,
                traces_validated_against_impl=acc, executions=execs, evaluations=events, trace_states=states,
                distinct_nontrivial=len(nt), families=fams, build_variants=vars_,
                rule="scenarios = seeded random (job scripts, child scripts, client script) from tools/checks_c16.py; distinct = hash of the scenario text; "
